@@ -1,5 +1,6 @@
 import Pycoin.Proofs.Ripemd160
 import Pycoin.Proofs.Murmur3
+import Pycoin.Proofs.Bloom
 import Pycoin.Model.HashPy
 import Pycoin.Model.Bloom
 import Pycoin.Spec.Murmur3
@@ -113,5 +114,61 @@ theorem C19_select (e : HashPy.Env) :
 
 /-- `double_sha256(x)` is SHA-256 applied twice (definitional composition, as coded) -/
 theorem C19_dsha256_def (data : Bytes) : HashPy.doubleSha256 data = dsha256 data := rfl
+
+
+/-! ## Bloom filter: BIP37 bit positions, and added elements always match
+
+`Bip37.testBit filter i` reads byte `i / 8`, bit `i % 8` (mask `1 << (i % 8)`); `Bip37.bitIndex size tweak item k` is
+`MurmurHash3(item, seed = k * 0xFBA4C795 + tweak mod 2^32) mod (8 * size)`; `Bloom.WF` is the invariant `__init__`
+establishes (`bit_count = 8 * len(filter_bytes)`, non-empty filter). -/
+
+/-- `BloomFilter(size, n, tweak)` for `0 < size ≤ 36000` succeeds, is well formed and has no bit set -/
+theorem C19_bloom_new (size : Nat) (h0 : 0 < size) (h1 : size ≤ 36000) (nh tweak : Int) :
+    ∃ f, Bloom.new (size : Int) nh tweak = .ok f ∧ Bloom.WF f ∧ f.filterBytes = List.replicate size 0 ∧
+      f.hashFunctionCount = nh ∧ f.tweak = tweak :=
+  Bloom.new_ok size h0 h1 nh tweak
+
+/-- **C19.bloom_bits** — `add_item` never raises on a well-formed filter, leaves size, tweak and hash count alone,
+and afterwards a bit is set iff it was set before or it is one of the BIP37 positions of the element: for every hash
+function `k < hash_function_count`, bit `murmur3(item, (k * 0xFBA4C795 + tweak) mod 2^32) mod (8 * size)`, stored in
+byte `i / 8` under mask `1 << (i % 8)`.  Tweaks of any width or sign act mod 2^32 (`lo32`). -/
+theorem C19_bloom_bits (f : Bloom.Filter) (hwf : Bloom.WF f) (item : Bytes) (hlen : item.length < 2 ^ 32) :
+    ∃ f', Bloom.addItem f item = .ok f' ∧ Bloom.Same f f' ∧
+      ∀ i, Bip37.testBit f'.filterBytes i =
+        (Bip37.testBit f.filterBytes i ||
+          (List.range f.hashFunctionCount.toNat).any fun k =>
+            decide (i = Bip37.bitIndex f.filterBytes.length (lo32 f.tweak) item k)) :=
+  Bloom.addItem_ok f hwf item hlen
+
+/-- **C19.bloom_monotone** — after any history of adds (induction over the history) no bit has been cleared and
+every element that was added matches: all of its `hash_function_count` BIP37 bits are set (`CBloomFilter::contains`). -/
+theorem C19_bloom_monotone (f : Bloom.Filter) (hwf : Bloom.WF f) (items : List Bytes)
+    (hlen : ∀ x ∈ items, x.length < 2 ^ 32) :
+    ∃ f', items.foldlM Bloom.addItem f = .ok f' ∧ Bloom.Same f f' ∧
+      (∀ i, Bip37.testBit f.filterBytes i = true → Bip37.testBit f'.filterBytes i = true) ∧
+      ∀ x ∈ items, Bip37.contains f'.filterBytes f.hashFunctionCount.toNat (lo32 f.tweak) x = true :=
+  Bloom.history_ok items f hwf hlen
+
+/-- `add_hash160` is `add_item`; `add_spendable` adds `tx_hash ‖ index` (4 bytes little-endian) or raises `struct.error` -/
+theorem C19_bloom_wrappers (f : Bloom.Filter) (h : Bytes) (idx : Nat) (hi : idx < 2 ^ 32) :
+    Bloom.addHash160 f h = Bloom.addItem f h ∧
+    Bloom.addSpendable f h (idx : Int) = Bloom.addItem f (h ++ leBytes idx 4) := by
+  refine ⟨rfl, ?_⟩
+  have : (0 : Int) ≤ (idx : Int) ∧ (idx : Int) < 2 ^ 32 := by omega
+  simp only [Bloom.addSpendable, this, and_self, if_true, Int.toNat_natCast]
+
+/-- non-vacuity: a fresh 3-byte filter with 5 hash functions is well formed, and adding one element to it matches -/
+example : ∃ f f', Bloom.new 3 5 0 = .ok f ∧ Bloom.addItem f [1, 2, 3] = .ok f' ∧
+    Bip37.contains f'.filterBytes 5 0 [1, 2, 3] = true := by
+  obtain ⟨f, h1, hwf, _, hn, ht⟩ := C19_bloom_new 3 (by decide) (by decide) 5 0
+  obtain ⟨f', h2, _, _, hc⟩ := C19_bloom_monotone f hwf [[1, 2, 3]] (by simp)
+  refine ⟨f, f', h1, ?_, ?_⟩
+  · simp only [List.foldlM_cons, List.foldlM_nil] at h2
+    cases h : Bloom.addItem f [1, 2, 3] with
+    | ok v => rw [h] at h2; exact h2
+    | error e => rw [h] at h2; cases h2
+  · have := hc [1, 2, 3] (by simp)
+    rw [hn, ht] at this
+    exact this
 
 end Pycoin.C19
